@@ -22,12 +22,14 @@ def cutBy : List Nat → List Match → List (List Match)
   | n :: ns, ms => ms.take n :: cutBy ns (ms.drop n)
 
 /-- property predicates evaluated on the implementation's result (4th field) -/
-def predsOn (lens : List Nat) (text : Bytes) (impl : String) : String :=
+def predsOn (cmds : List Cmd) (lens : List Nat) (text : Bytes) (impl : String) : String :=
   match parseMatches impl with
   | none => "PRED na"
   | some ms =>
     if lens.foldl (· + ·) 0 != ms.length then "PRED na" else
-    "PRED faithful=" ++ boolStr ((cutBy lens ms).all (Spec.faithful text))
+    let groups := cutBy lens ms
+    "PRED faithful=" ++ boolStr (groups.all (Spec.faithful text)) ++
+      " replacement=" ++ boolStr (replacementsOk procFuel "text".toUTF8.toList (genStates cmds {}) groups)
 
 def handleRun (fields : List String) : String :=
   match fields with
@@ -38,7 +40,7 @@ def handleRun (fields : List String) : String :=
       | .error _ => "CODE GENERR\tRES GENERR"
       | .ok bc =>
         let pred := match rest with
-          | impl :: _ => "\t" ++ predsOn (groupLens t bc) t impl
+          | impl :: _ => "\t" ++ predsOn cmds (groupLens t bc) t impl
           | [] => ""
         "CODE " ++ bytecodeStr bc ++ "\tRES " ++ resStr (runProgram procFuel vmFuel "text".toUTF8.toList t bc) ++ pred
     | _, _ => "BADCASE"
